@@ -589,6 +589,250 @@ M('c02-sink-str-prefix-never-compiled', 'C02', 'R12', APP, SINK_PREFIX, "       
 # negative controls (exit 0): `if isinstance(prefix, str): prefix = re.compile(prefix)`; `matcher = prefix if hasattr(prefix, 'match')
 # else re.compile(prefix)`; entry bound to a local tuple first; the cast dropped
 
+
+# ----------------------------------------------------------------------
+# wave k3 (behaviour-preserving patches): for every repaired false alarm / unread shape a "refactoring + break" operator --
+# the rewrite the rule now reads (silent on its own, see the negative controls in DESIGN 7.x / the fixer report) combined with a break.
+# k3-c02-1 (early returns instead of for/else) + the no-match return hands back the 400 default
+M2('c02-k3-early-returns-no-match-is-400', 'C02', 'R1', [
+    {'file': 'falcon/app.py',
+     'old': '        else:\n            params = {}\n\n            for matcher, obj, is_sink in self._sink_and_static_routes:\n                m = matcher.match(path)\n                if m:\n                    if is_sink:\n                        params = m.groupdict()  # type: ignore[union-attr]\n                    responder = obj\n\n                    break\n            else:\n                responder = self.__class__._default_responder_path_not_found\n\n        return (responder, params, resource, uri_template)\n',
+     'new': '\n            return (responder, params, resource, uri_template)\n\n        for matcher, obj, is_sink in self._sink_and_static_routes:\n            m = matcher.match(path)\n            if m:\n                if is_sink:\n                    return (obj, m.groupdict(), None, uri_template)\n\n                return (obj, {}, None, uri_template)\n\n        responder = self.__class__._default_responder_bad_request\n        return (responder, {}, None, uri_template)\n'},
+])
+# k3-c02-1 + the static-route return dedented out of `if m:`
+M2('c02-k3-early-returns-static-selected-unmatched', 'C02', 'R1', [
+    {'file': 'falcon/app.py',
+     'old': '        else:\n            params = {}\n\n            for matcher, obj, is_sink in self._sink_and_static_routes:\n                m = matcher.match(path)\n                if m:\n                    if is_sink:\n                        params = m.groupdict()  # type: ignore[union-attr]\n                    responder = obj\n\n                    break\n            else:\n                responder = self.__class__._default_responder_path_not_found\n\n        return (responder, params, resource, uri_template)\n',
+     'new': '\n            return (responder, params, resource, uri_template)\n\n        for matcher, obj, is_sink in self._sink_and_static_routes:\n            m = matcher.match(path)\n            if m:\n                if is_sink:\n                    return (obj, m.groupdict(), None, uri_template)\n\n            return (obj, {}, None, uri_template)\n\n        responder = self.__class__._default_responder_path_not_found\n        return (responder, {}, None, uri_template)\n'},
+])
+# k3-c02-1 + the sink test inverted: groupdict() asked of a static route, sinks get {}
+M2('c02-k3-early-returns-groupdict-on-static-branch', 'C02', 'R5', [
+    {'file': 'falcon/app.py',
+     'old': '        else:\n            params = {}\n\n            for matcher, obj, is_sink in self._sink_and_static_routes:\n                m = matcher.match(path)\n                if m:\n                    if is_sink:\n                        params = m.groupdict()  # type: ignore[union-attr]\n                    responder = obj\n\n                    break\n            else:\n                responder = self.__class__._default_responder_path_not_found\n\n        return (responder, params, resource, uri_template)\n',
+     'new': '\n            return (responder, params, resource, uri_template)\n\n        for matcher, obj, is_sink in self._sink_and_static_routes:\n            m = matcher.match(path)\n            if m:\n                if not is_sink:\n                    return (obj, m.groupdict(), None, uri_template)\n\n                return (obj, {}, None, uri_template)\n\n        responder = self.__class__._default_responder_path_not_found\n        return (responder, {}, None, uri_template)\n'},
+])
+# k3-c02-1 + the matcher instead of the entry object is returned as responder
+M2('c02-k3-early-returns-entry-matcher-returned', 'C02', 'R1', [
+    {'file': 'falcon/app.py',
+     'old': '        else:\n            params = {}\n\n            for matcher, obj, is_sink in self._sink_and_static_routes:\n                m = matcher.match(path)\n                if m:\n                    if is_sink:\n                        params = m.groupdict()  # type: ignore[union-attr]\n                    responder = obj\n\n                    break\n            else:\n                responder = self.__class__._default_responder_path_not_found\n\n        return (responder, params, resource, uri_template)\n',
+     'new': '\n            return (responder, params, resource, uri_template)\n\n        for matcher, obj, is_sink in self._sink_and_static_routes:\n            m = matcher.match(path)\n            if m:\n                if is_sink:\n                    return (obj, m.groupdict(), None, uri_template)\n\n                return (matcher, {}, None, uri_template)\n\n        responder = self.__class__._default_responder_path_not_found\n        return (responder, {}, None, uri_template)\n'},
+])
+# k3-c02-2 (module-level _set_options_response helper) + append_header instead of set_header
+M2('c02-k3-options-helper-appends-allow', 'C02', 'R4', [
+    {'file': 'falcon/responders.py',
+     'old': "    def options_responder(req: Request, resp: Response, **kwargs: Any) -> None:\n        resp.status = HTTP_200\n        resp.set_header('Allow', allowed)\n        resp.set_header('Content-Length', '0')\n",
+     'new': '    def options_responder(req: Request, resp: Response, **kwargs: Any) -> None:\n        _set_options_response(resp, allowed)\n'},
+    {'file': 'falcon/responders.py',
+     'old': "        ) -> None:\n            resp.status = HTTP_200\n            resp.set_header('Allow', allowed)\n            resp.set_header('Content-Length', '0')\n",
+     'new': '        ) -> None:\n            _set_options_response(resp, allowed)\n'},
+    {'file': 'falcon/responders.py',
+     'old': 'def create_default_options(\n',
+     'new': "def _set_options_response(resp, allowed):\n    resp.status = HTTP_200\n    resp.append_header('Allow', allowed)\n    resp.set_header('Content-Length', '0')\n\n\ndef create_default_options(\n"},
+])
+# k3-c02-2 + the async closure hands (allowed, resp)
+M2('c02-k3-options-helper-swapped-arguments', 'C02', 'R4', [
+    {'file': 'falcon/responders.py',
+     'old': "    def options_responder(req: Request, resp: Response, **kwargs: Any) -> None:\n        resp.status = HTTP_200\n        resp.set_header('Allow', allowed)\n        resp.set_header('Content-Length', '0')\n",
+     'new': '    def options_responder(req: Request, resp: Response, **kwargs: Any) -> None:\n        _set_options_response(resp, allowed)\n'},
+    {'file': 'falcon/responders.py',
+     'old': "        ) -> None:\n            resp.status = HTTP_200\n            resp.set_header('Allow', allowed)\n            resp.set_header('Content-Length', '0')\n",
+     'new': '        ) -> None:\n            _set_options_response(allowed, resp)\n'},
+    {'file': 'falcon/responders.py',
+     'old': 'def create_default_options(\n',
+     'new': "def _set_options_response(resp, allowed):\n    resp.status = HTTP_200\n    resp.set_header('Allow', allowed)\n    resp.set_header('Content-Length', '0')\n\n\ndef create_default_options(\n"},
+])
+# k3-c02-2 + the helper forgets the Allow header
+M2('c02-k3-options-helper-without-allow', 'C02', 'R4', [
+    {'file': 'falcon/responders.py',
+     'old': "    def options_responder(req: Request, resp: Response, **kwargs: Any) -> None:\n        resp.status = HTTP_200\n        resp.set_header('Allow', allowed)\n        resp.set_header('Content-Length', '0')\n",
+     'new': '    def options_responder(req: Request, resp: Response, **kwargs: Any) -> None:\n        _set_options_response(resp, allowed)\n'},
+    {'file': 'falcon/responders.py',
+     'old': "        ) -> None:\n            resp.status = HTTP_200\n            resp.set_header('Allow', allowed)\n            resp.set_header('Content-Length', '0')\n",
+     'new': '        ) -> None:\n            _set_options_response(resp, allowed)\n'},
+    {'file': 'falcon/responders.py',
+     'old': 'def create_default_options(\n',
+     'new': "def _set_options_response(resp, allowed):\n    resp.status = HTTP_200\n    resp.set_header('Content-Length', '0')\n\n\ndef create_default_options(\n"},
+])
+# k3-c02-2 + the closures hand the live list, the helper joins at request time
+M2('c02-k3-options-helper-joins-live-list', 'C02', 'R4', [
+    {'file': 'falcon/responders.py',
+     'old': "    def options_responder(req: Request, resp: Response, **kwargs: Any) -> None:\n        resp.status = HTTP_200\n        resp.set_header('Allow', allowed)\n        resp.set_header('Content-Length', '0')\n",
+     'new': '    def options_responder(req: Request, resp: Response, **kwargs: Any) -> None:\n        _set_options_response(resp, allowed_methods)\n'},
+    {'file': 'falcon/responders.py',
+     'old': "        ) -> None:\n            resp.status = HTTP_200\n            resp.set_header('Allow', allowed)\n            resp.set_header('Content-Length', '0')\n",
+     'new': '        ) -> None:\n            _set_options_response(resp, allowed_methods)\n'},
+    {'file': 'falcon/responders.py',
+     'old': 'def create_default_options(\n',
+     'new': "def _set_options_response(resp, allowed):\n    resp.status = HTTP_200\n    resp.set_header('Allow', ', '.join(allowed))\n    resp.set_header('Content-Length', '0')\n\n\ndef create_default_options(\n"},
+])
+# bound-method alias match = matcher.match + a sink is selected without a match
+M2('c02-match-alias-selected-unmatched', 'C02', 'R1', [
+    {'file': 'falcon/app.py',
+     'old': '                m = matcher.match(path)\n                if m:\n                    if is_sink:\n                        params = m.groupdict()  # type: ignore[union-attr]\n                    responder = obj\n\n                    break\n',
+     'new': '                match = matcher.match\n                m = match(path)\n                if m or is_sink:\n                    if is_sink:\n                        params = m.groupdict()  # type: ignore[union-attr]\n                    responder = obj\n\n                    break\n'},
+])
+# method_map['OPTIONS'] = create_default_options(...) written directly + after the append
+M2('c02-options-stored-directly-after-append', 'C02', 'R4', [
+    {'file': 'falcon/routing/util.py',
+     'old': "        opt_responder = responders.create_default_options(allowed_methods, asgi=asgi)\n        method_map['OPTIONS'] = opt_responder  # type: ignore[assignment]\n        allowed_methods.append('OPTIONS')\n",
+     'new': "        allowed_methods.append('OPTIONS')\n        method_map['OPTIONS'] = responders.create_default_options(allowed_methods, asgi=asgi)  # type: ignore[assignment]\n"},
+])
+# direct store + under HEAD
+M2('c02-options-stored-directly-wrong-key', 'C02', 'R4', [
+    {'file': 'falcon/routing/util.py',
+     'old': "        opt_responder = responders.create_default_options(allowed_methods, asgi=asgi)\n        method_map['OPTIONS'] = opt_responder  # type: ignore[assignment]\n",
+     'new': "        method_map['HEAD'] = responders.create_default_options(allowed_methods, asgi=asgi)  # type: ignore[assignment]\n"},
+])
+# `if method in method_map: continue` guard clause + inverted
+M2('c02-405-fill-guard-continue-inverted', 'C02', 'R4', [
+    {'file': 'falcon/routing/util.py',
+     'old': '        if method not in method_map:\n            method_map[method] = na_responder  # type: ignore[assignment]\n',
+     'new': '        if method not in method_map:\n            continue\n\n        method_map[method] = na_responder  # type: ignore[assignment]\n'},
+])
+# setdefault() fill + wrong responder
+M2('c02-405-setdefault-wrong-responder', 'C02', 'R4', [
+    {'file': 'falcon/routing/util.py',
+     'old': '        if method not in method_map:\n            method_map[method] = na_responder  # type: ignore[assignment]\n',
+     'new': '        method_map.setdefault(method, responders.bad_request)  # type: ignore[arg-type]\n'},
+])
+# setdefault() fill + an unconditional store after it
+M2('c02-405-setdefault-then-overwrite', 'C02', 'R4', [
+    {'file': 'falcon/routing/util.py',
+     'old': '        if method not in method_map:\n            method_map[method] = na_responder  # type: ignore[assignment]\n',
+     'new': '        method_map.setdefault(method, na_responder)  # type: ignore[arg-type]\n        method_map[method] = na_responder\n'},
+])
+# meta = constants.<...> local alias + the WebDAV list instead of the meta methods
+M2('c02-meta-alias-wrong-constant', 'C02', 'R4', [
+    {'file': 'falcon/routing/util.py',
+     'old': '    allowed_methods = [\n        m for m in sorted(list(method_map.keys())) if m not in constants._META_METHODS\n    ]\n',
+     'new': '    meta = constants.WEBDAV_METHODS\n    allowed_methods = [m for m in sorted(method_map) if m not in meta]\n'},
+])
+# set_header = resp.<...> bound-method alias + append_header
+M2('c02-options-set-header-alias-appends', 'C02', 'R4', [
+    {'file': 'falcon/responders.py',
+     'old': "    def options_responder(req: Request, resp: Response, **kwargs: Any) -> None:\n        resp.status = HTTP_200\n        resp.set_header('Allow', allowed)\n        resp.set_header('Content-Length', '0')\n",
+     'new': "    def options_responder(req: Request, resp: Response, **kwargs: Any) -> None:\n        set_header = resp.append_header\n        resp.status = HTTP_200\n        set_header('Allow', allowed)\n        resp.set_header('Content-Length', '0')\n"},
+])
+# nested _fill(resp) helper shared by both closures + no Allow
+M2('c02-options-nested-helper-without-allow', 'C02', 'R4', [
+    {'file': 'falcon/responders.py',
+     'old': "    def options_responder(req: Request, resp: Response, **kwargs: Any) -> None:\n        resp.status = HTTP_200\n        resp.set_header('Allow', allowed)\n        resp.set_header('Content-Length', '0')\n",
+     'new': '    def options_responder(req: Request, resp: Response, **kwargs: Any) -> None:\n        _fill(resp)\n'},
+    {'file': 'falcon/responders.py',
+     'old': "        ) -> None:\n            resp.status = HTTP_200\n            resp.set_header('Allow', allowed)\n            resp.set_header('Content-Length', '0')\n",
+     'new': '        ) -> None:\n            _fill(resp)\n'},
+    {'file': 'falcon/responders.py',
+     'old': "    allowed = ', '.join(allowed_methods)\n",
+     'new': "    allowed = ', '.join(allowed_methods)\n\n    def _fill(resp: Any) -> None:\n        resp.status = HTTP_200\n        resp.set_header('Content-Length', '0')\n"},
+])
+# module-level _raise_method_not_allowed helper + raises with []
+M2('c02-405-helper-empty-list', 'C02', 'R4', [
+    {'file': 'falcon/responders.py',
+     'old': '        ) -> NoReturn:\n            raise HTTPMethodNotAllowed(allowed_methods)\n',
+     'new': '        ) -> NoReturn:\n            _raise_method_not_allowed(allowed_methods)\n'},
+    {'file': 'falcon/responders.py',
+     'old': '    def method_not_allowed(req: Request, resp: Response, **kwargs: Any) -> NoReturn:\n        raise HTTPMethodNotAllowed(allowed_methods)\n',
+     'new': '    def method_not_allowed(req: Request, resp: Response, **kwargs: Any) -> NoReturn:\n        _raise_method_not_allowed(allowed_methods)\n'},
+    {'file': 'falcon/responders.py',
+     'old': 'def create_method_not_allowed(\n',
+     'new': 'def _raise_method_not_allowed(allowed_methods: Iterable[str]) -> NoReturn:\n    raise HTTPMethodNotAllowed([])\n\n\ndef create_method_not_allowed(\n'},
+])
+# cls = self.__class__ alias + 400 default on no match
+M2('c02-scan-alias-no-match-is-400', 'C02', 'R1', [
+    {'file': 'falcon/app.py',
+     'old': '            else:\n                responder = self.__class__._default_responder_path_not_found\n',
+     'new': '            else:\n                cls = self.__class__\n                responder = cls._default_responder_bad_request\n'},
+])
+# sinks = self._sinks alias + append
+M2('c02-add-sink-alias-append', 'C02', 'R2', [
+    {'file': 'falcon/app.py',
+     'old': '        self._sinks.insert(0, (prefix, sink, True))\n',
+     'new': '        entry = (prefix, sink, True)\n        sinks = self._sinks\n        sinks.append(entry)\n'},
+])
+# sinks = self._sinks alias + refresh dropped
+M2('c02-add-sink-alias-no-refresh', 'C02', 'R3', [
+    {'file': 'falcon/app.py',
+     'old': '        self._sinks.insert(0, (prefix, sink, True))\n        self._update_sink_and_static_routes()\n',
+     'new': '        sinks = self._sinks\n        sinks.insert(0, (prefix, sink, True))\n'},
+])
+# scan extracted into a same-class method (tail call) + 400 default on no match
+M2('c02-scan-method-helper-no-match-is-400', 'C02', 'R1', [
+    {'file': 'falcon/app.py',
+     'old': '        else:\n            params = {}\n\n            for matcher, obj, is_sink in self._sink_and_static_routes:\n                m = matcher.match(path)\n                if m:\n                    if is_sink:\n                        params = m.groupdict()  # type: ignore[union-attr]\n                    responder = obj\n\n                    break\n            else:\n                responder = self.__class__._default_responder_path_not_found\n\n        return (responder, params, resource, uri_template)\n',
+     'new': '\n            return (responder, params, resource, uri_template)\n\n        return self._find_fallback(path, uri_template)\n\n    def _find_fallback(self, path, uri_template):\n        for matcher, obj, is_sink in self._sink_and_static_routes:\n            m = matcher.match(path)\n            if m:\n                if is_sink:\n                    return (obj, m.groupdict(), None, uri_template)\n\n                return (obj, {}, None, uri_template)\n\n        return (self.__class__._default_responder_bad_request, {}, None, uri_template)\n'},
+])
+# negative controls (exit 0): k3-c02-1, k3-c02-2 themselves; `match = matcher.match`; `cls = self.__class__` / `fallbacks = self._sink_and_static_routes`;
+# the scan as a same-class method called in tail position; method_map['OPTIONS'] = create_default_options(...) before the append;
+# `if method in method_map: continue`; method_map.setdefault(method, na_responder); `meta = constants._META_METHODS`;
+# `set_header = resp.set_header`; a nested _fill(resp) shared by both OPTIONS closures; a module-level _raise_method_not_allowed(allowed_methods);
+# `sinks = self._sinks; sinks.insert(0, entry)`
+
+
+# wave k3, second round of pre-emptive rewrites (refactoring + break)
+# method_map.get(method, <400 default>) instead of try/except KeyError + the default dropped (None responder)
+M2('c02-get-default-missing', 'C02', 'R1', [
+    {'file': 'falcon/app.py',
+     'old': '            try:\n                responder = method_map[method]\n            except KeyError:\n                # NOTE(kgriffs): Dirty hack! We use __class__ here to avoid\n                #   binding self to the default responder method. We could\n                #   decorate the function itself with @staticmethod, but it\n                #   would perhaps be less obvious to the reader why this is\n                #   needed when just looking at the code in the reponder\n                #   module, so we just grab it directly here.\n                responder = self.__class__._default_responder_bad_request\n',
+     'new': '            responder = method_map.get(method)\n'},
+])
+# .get() form + the 404 default for an unknown method of a matched route
+M2('c02-get-default-is-404', 'C02', 'R1', [
+    {'file': 'falcon/app.py',
+     'old': '            try:\n                responder = method_map[method]\n            except KeyError:\n                # NOTE(kgriffs): Dirty hack! We use __class__ here to avoid\n                #   binding self to the default responder method. We could\n                #   decorate the function itself with @staticmethod, but it\n                #   would perhaps be less obvious to the reader why this is\n                #   needed when just looking at the code in the reponder\n                #   module, so we just grab it directly here.\n                responder = self.__class__._default_responder_bad_request\n',
+     'new': '            responder = method_map.get(method, self.__class__._default_responder_path_not_found)\n'},
+])
+# params = m.groupdict() if is_sink else {} + arms swapped
+M2('c02-params-ifexp-swapped', 'C02', 'R5', [
+    {'file': 'falcon/app.py',
+     'old': '                if m:\n                    if is_sink:\n                        params = m.groupdict()  # type: ignore[union-attr]\n                    responder = obj\n',
+     'new': '                if m:\n                    params = {} if is_sink else m.groupdict()\n                    responder = obj\n'},
+])
+# resp.set_headers({...}) display + no Allow item
+M2('c02-options-set-headers-without-allow', 'C02', 'R4', [
+    {'file': 'falcon/responders.py',
+     'old': "    def options_responder(req: Request, resp: Response, **kwargs: Any) -> None:\n        resp.status = HTTP_200\n        resp.set_header('Allow', allowed)\n        resp.set_header('Content-Length', '0')\n",
+     'new': "    def options_responder(req: Request, resp: Response, **kwargs: Any) -> None:\n        resp.status = HTTP_200\n        resp.set_headers({'Content-Length': '0'})\n"},
+    {'file': 'falcon/responders.py',
+     'old': "        ) -> None:\n            resp.status = HTTP_200\n            resp.set_header('Allow', allowed)\n            resp.set_header('Content-Length', '0')\n",
+     'new': "        ) -> None:\n            resp.status = HTTP_200\n            resp.set_headers({'Content-Length': '0'})\n"},
+])
+# set_headers display + Allow joined from the live list at request time
+M2('c02-options-set-headers-live-list', 'C02', 'R4', [
+    {'file': 'falcon/responders.py',
+     'old': "    def options_responder(req: Request, resp: Response, **kwargs: Any) -> None:\n        resp.status = HTTP_200\n        resp.set_header('Allow', allowed)\n        resp.set_header('Content-Length', '0')\n",
+     'new': "    def options_responder(req: Request, resp: Response, **kwargs: Any) -> None:\n        resp.status = HTTP_200\n        resp.set_headers({'Allow': ', '.join(allowed_methods), 'Content-Length': '0'})\n"},
+    {'file': 'falcon/responders.py',
+     'old': "        ) -> None:\n            resp.status = HTTP_200\n            resp.set_header('Allow', allowed)\n            resp.set_header('Content-Length', '0')\n",
+     'new': "        ) -> None:\n            resp.status = HTTP_200\n            resp.set_headers({'Allow': ', '.join(allowed_methods), 'Content-Length': '0'})\n"},
+])
+# _OPTIONS = 'OPTIONS' module constant + appended before the OPTIONS responder is created
+M2('c02-options-constant-appended-first', 'C02', 'R4', [
+    {'file': 'falcon/routing/util.py',
+     'old': "    if 'OPTIONS' not in method_map:\n",
+     'new': '    if _OPTIONS not in method_map:\n'},
+    {'file': 'falcon/routing/util.py',
+     'old': "        opt_responder = responders.create_default_options(allowed_methods, asgi=asgi)\n        method_map['OPTIONS'] = opt_responder  # type: ignore[assignment]\n        allowed_methods.append('OPTIONS')\n",
+     'new': '        allowed_methods.append(_OPTIONS)\n        opt_responder = responders.create_default_options(allowed_methods, asgi=asgi)\n        method_map[_OPTIONS] = opt_responder  # type: ignore[assignment]\n'},
+    {'file': 'falcon/routing/util.py',
+     'old': 'class SuffixedMethodNotFoundError(Exception):',
+     'new': "_OPTIONS = 'OPTIONS'\n\n\nclass SuffixedMethodNotFoundError(Exception):"},
+])
+# for entry in table: matcher, obj, is_sink = entry + first two swapped
+M2('c02-entry-unpacked-in-wrong-order', 'C02', 'R1', [
+    {'file': 'falcon/app.py',
+     'old': '            for matcher, obj, is_sink in self._sink_and_static_routes:\n                m = matcher.match(path)\n',
+     'new': '            for entry in self._sink_and_static_routes:\n                obj, matcher, is_sink = entry\n                m = matcher.match(path)\n'},
+])
+# if (m := matcher.match(path)) + `or True`
+M2('c02-walrus-match-not-tested', 'C02', 'R1', [
+    {'file': 'falcon/app.py',
+     'old': '                m = matcher.match(path)\n                if m:\n                    if is_sink:',
+     'new': '                if (m := matcher.match(path)) or True:\n                    if is_sink:'},
+])
+# negative controls (exit 0): method_map.get(method, self.__class__._default_responder_bad_request); `params = m.groupdict() if is_sink else {}`;
+# resp.set_headers({'Allow': allowed, 'Content-Length': '0'}); `_OPTIONS = 'OPTIONS'` used in the test / store / append;
+# `for entry in table: matcher, obj, is_sink = entry`; `if m := matcher.match(path):`
+
 # C02 R4 (r4_allow) is also registered as C20 R6 (the preflight copies the same Allow value into
 # Access-Control-Allow-Methods): every R4 operator legitimately fires there too.
 from .mutants import MUTANTS as _ALL   # noqa: E402
